@@ -9,7 +9,8 @@ RULE = ("real util::AutoProbing<Entry,IdentityHash> in-process vs the Lean model
         "first, keys that move or stay on doubling) x all suffixes of <= 2 ops over a 10-key universe followed by lookups of the "
         "whole universe; seeded random histories up to 300k keys (quick) / 5M (thorough, crossing the malloc->mmap switch); after "
         "each history the implementation's real bucket array is fed to the Lean invariant (PV.Spec.TableInv.check); oracle for "
-        "answers = finite map (PV.Spec.Map); non-trivial = distinct history")
+        "answers = finite map (PV.Spec.Map); bin/vocab and bin/substitute (values kept in the entries) against their Lean models and "
+        "table-free specifications, substitute also on 260k (2.5M) lines; non-trivial = distinct history")
 ASSUMPTIONS = ["HugeRealloc zero-fills the new half (mremap / calloc contract)", "keys are non-zero (0 is the empty-bucket marker)",
                "model transcribes util/probing_hash_table.hh by hand"]
 
@@ -169,6 +170,64 @@ def run(ctx):
             pvlib.report_violation(ctx, "corr:tools.vocab", {"ops": ["tools.vocab " + hx(data)], "impl": hx(out), "model": m,
                                    "correspondence": "PV.Tools2.vocab vs bin/vocab"}, no_input=True, summary="vocab model/impl differ")
             break
+    # bin/substitute = VALUES in the table entries, written through the iterator FindOrInsert returns: the first line of every
+    # sentence pair is copied and its 5th field remembered; every later line with the same pair is printed with the remembered
+    # field.  Small cases through the Lean model and its table-free specification (theorem substitute_refines); a large one
+    # (keys across many doublings and the malloc -> mmap transition, repeats far apart) against the same rule in Python.
+    def subst_ref(lines):
+        first, outl = {}, []
+        for l in lines:
+            f = l.split(b"\t")
+            if len(f) < 6:
+                return None
+            k = (f[2], f[3])
+            if k in first:
+                outl.append(b"\t".join(f[:4] + [first[k]] + f[5:]))
+            else:
+                first[k] = f[4]
+                outl.append(l)
+        return outl
+    atoms = [b"", b"a", b"b", b"c d", b"\xc3\xa9"]
+    for it in range(60 if ctx.tier == "quick" else 600):
+        nl = rng.randrange(0, 40)
+        lines = []
+        for j in range(nl):
+            nf = rng.choice([6, 6, 6, 7, 9]) if rng.random() < 0.97 else rng.randrange(0, 6)
+            if nf >= 6:
+                lines.append(b"\t".join([rng.choice(atoms) for _ in range(4)] + [b"v%d" % j] + [rng.choice(atoms) for _ in range(nf - 5)]))
+            else:
+                lines.append(b"\t".join(rng.choice(atoms) for _ in range(nf)))
+        data = b"".join(l + b"\n" for l in lines)
+        st, out, err = pvlib.run_tool([ctx.bin("substitute")], data, env=pvlib.san_env(), timeout=30)
+        ctx.count("substitute", 1, [data])
+        ms = pvlib.run_lines(pvlib.PVDRIVER, ["tools.substitute " + hx(data), "tools.spec.substitute " + hx(data)])
+        got = "ok " + hx(out) if st == 0 else "ERR"
+        if got != ms[1]:
+            pvlib.report_violation(ctx, "substitute:" + hx(data)[:80], {"argv": ["substitute"], "stdin_hex": hx(data), "status": st, "got": got[:600], "spec": ms[1][:600],
+                                   "stderr": err.decode(errors="replace")[-300:]},
+                                   summary=f"substitute on {data[:70]!r}: {'status ' + str(st) if st != 0 else 'printed ' + repr(out[:70])}, the specification (value of the first line "
+                                           f"with the same sentence pair) gives {ms[1][:60]}")
+            break
+        if got != ms[0]:
+            pvlib.report_violation(ctx, "corr:tools.substitute", {"ops": ["tools.substitute " + hx(data)], "impl": got[:600], "model": ms[0][:600],
+                                   "correspondence": "PV.Substitute.substitute vs bin/substitute"}, no_input=True, summary="substitute model/impl differ")
+            break
+    nbig = 260000 if ctx.tier == "quick" else 2500000
+    big = []
+    for i in range(nbig):
+        k = i if rng.random() < 0.75 else rng.randrange(0, i + 1)
+        big.append(b"id%d\tsrc\tsentence %d\ttranslation %d\tvalue-of-line-%d\ttail %d" % (i, k, k * 7, i, i % 13))
+    data = b"".join(l + b"\n" for l in big)
+    st, out, err = pvlib.run_tool([ctx.bin("substitute")], data, env=pvlib.san_env(), timeout=900)
+    ctx.count("substitute.large", 1, [nbig])
+    want = subst_ref(big)
+    gl = out.split(b"\n")[:-1]
+    if st != 0 or gl != want:
+        k = next((i for i, (p_, q_) in enumerate(zip(gl, want)) if p_ != q_), min(len(gl), len(want)))
+        pvlib.report_violation(ctx, f"substitute-large:{nbig}", {"argv": ["substitute"], "generator": f"{nbig} lines, 75% new sentence pairs, repeats at any distance (seed {ctx.seed})",
+                               "status": st, "first_diff_line": k, "got": hx(gl[k][:200]) if k < len(gl) else None, "want": hx(want[k][:200]) if k < len(want) else None},
+                               summary=f"substitute on {nbig} lines: output line {k} is {gl[k][:80] if k < len(gl) else None!r}, the value remembered for that sentence pair gives "
+                                       f"{want[k][:80] if k < len(want) else None!r} (status {st})")
     # bulk growth through every allocation regime (malloc -> 2 MiB -> mmap -> mremap ...), audited in the harness against
     # the finite map after every doubling, for the 8-byte (dedupe's seen-set) and the 16-byte (key + value) entry
     for entry, n in ((8, 2_000_000), (16, 1_200_000)) if ctx.tier == "quick" else ((8, 20_000_000), (16, 12_000_000)):
